@@ -467,3 +467,15 @@ K('C16', 'gbp-D-includes-internal-edges', [(RGF, "                            fo
 K('C16', 'gbp-N-around-receiver', [(RGF, "                        for s in self.parents[p]:\n                            N[p,r].add((s,p))", "                        for s in self.parents[r]:\n                            N[p,r].add((s,r))")], 'gbp-message-sets')
 K('C16', 'gbp-D-keeps-own-edge', [(RGF, "                        for s in set(self.parents[r]) - {p}:\n                            D[p,r].add((s,r))", "                        for s in set(self.parents[r]):\n                            D[p,r].add((s,r))")], 'gbp-message-sets')
 T('C16', 'gbp-D-loop-vars-renamed', [(RGF, "                        for d in self.descendants[r]:\n                            for p1 in set(self.parents[d]) - {r} - set(self.descendants[r]):\n                                D[p,r].add((p1,d))", "                        for below in self.descendants[r]:\n                            for outside in set(self.parents[below]) - {r} - set(self.descendants[r]):\n                                D[p,r].add((outside,below))")])
+
+# ---- near-miss round (round 3)
+_CDP = 'mechanisms/cdp2adp.py'
+K('C07', 'rho-search-width-tolerance-exit', [(_CDP, "        rho=(rhomin+rhomax)/2\n", "        rho=(rhomin+rhomax)/2\n        if rhomax-rhomin<=1e-9: break\n")], 'search-termination')
+T('C07', 'rho-search-fixed-point-exit', [(_CDP, "        rho=(rhomin+rhomax)/2\n", "        rho=(rhomin+rhomax)/2\n        if rho<=rhomin or rho>=rhomax: break\n")])
+T('C07', 'delta-formula-rewritten-by-identity', [(_CDP, "    delta = math.exp((alpha-1)*(alpha*rho-eps)+alpha*math.log1p(-1/alpha)) / (alpha-1.0)", "    delta = math.exp((alpha-1)*(alpha*rho-eps+math.log1p(-1/alpha))) / alpha")])
+K('C07', 'delta-formula-denominator-only', [(_CDP, "    delta = math.exp((alpha-1)*(alpha*rho-eps)+alpha*math.log1p(-1/alpha)) / (alpha-1.0)", "    delta = math.exp((alpha-1)*(alpha*rho-eps)+alpha*math.log1p(-1/alpha)) / alpha")], 'delta-formula')
+T('C15', 'invert-sorted-by-own-order', [(DOM, "        return [a for a in self.attrs if a not in attrs]", "        rest = set(self.attrs).difference(attrs)\n        return sorted(rest, key=self.attrs.index)")])
+K('C15', 'invert-sorted-by-name', [(DOM, "        return [a for a in self.attrs if a not in attrs]", "        rest = set(self.attrs).difference(attrs)\n        return sorted(rest)")], 'order-filter')
+T('C15', 'histogram-by-count-and-range', [(DS, "        bins = [range(n+1) for n in self.domain.shape]\n        ans = np.histogramdd(self.df.values, bins, weights=self.weights)[0]", "        shape = self.domain.shape\n        ans = np.histogramdd(self.df.values, bins=shape, range=[(0,n) for n in shape], weights=self.weights)[0]")])
+K('C15', 'histogram-by-count-no-range', [(DS, "        bins = [range(n+1) for n in self.domain.shape]\n        ans = np.histogramdd(self.df.values, bins, weights=self.weights)[0]", "        shape = self.domain.shape\n        ans = np.histogramdd(self.df.values, bins=shape, weights=self.weights)[0]")], 'histogram')
+T('C15', 'project-frame-unsliced', [(DS, "        data = self.df.loc[:,cols]\n        domain = self.domain.project(cols)\n        return Dataset(data, domain, self.weights)", "        domain = self.domain.project(cols)\n        return Dataset(self.df, domain, self.weights)")])
